@@ -149,7 +149,14 @@ class Wire(Contract):
 
         def glob(I, name):
             return VBuiltin(name.s)
-        return {'call_default': call_default, 'binop_default': binop_default, 'call': call_, 'op': op_, 'glob': glob}
+
+        def type_default(I, v):
+            # type(self): the concrete class of the receiver (a subclass such as Expanding must survive re-wrapping)
+            if isinstance(v, VObj) and v.loc == self.pre_args['self'].loc:
+                return sym.VClass('type(self)')
+            return None
+        return {'call_default': call_default, 'binop_default': binop_default, 'call': call_, 'op': op_, 'glob': glob,
+                'type_default': type_default}
 
     def unit(self, I, index):
         m = index.find_method(self.cls, self.method)       # the method the class resolves to (may be inherited)
@@ -241,5 +248,19 @@ ALL = [
 ]
 
 for _C in ALL:
+    assert _C.__name__ not in globals(), _C.__name__
+    globals()[_C.__name__] = _C
+
+
+# ---- re-wrapping of a window (column selection, elementwise operations): every window parameter, the resume state and the
+# concrete window class survive (C07: n / value; C11: the class (Expanding, EWM); C12: start / with_state)
+_REWRAP = ("call('type(self)', %s, n=self.n, value=self.value, with_state=self.with_state, start=self.start)")
+ALL += [
+    W('Window', '__getitem__', _REWRAP % "call('.__getitem__', self.root, key)", ['key'], ['n', 'value', 'start', 'with_state'], ['root'],
+      props_=('C07', 'C11', 'C12')),
+    W('Window', 'map_partitions', _REWRAP % "call('.map_partitions', self.root, func, **kwargs)", ['func'], ['n', 'value', 'start', 'with_state'], ['root'],
+      props_=('C07', 'C11', 'C12'), name_='Window.map_partitions[no further positional operands]'),
+]
+for _C in ALL[-2:]:
     assert _C.__name__ not in globals(), _C.__name__
     globals()[_C.__name__] = _C
